@@ -291,18 +291,49 @@ theorem tie_processCacheFacts : processCacheFacts = [
   "call c.rds.DelCtx(ctx, key)",
   "return c.errNotFound"] := by rfl
 
-theorem tie_setCacheWithNotFoundFacts : setCacheWithNotFoundFacts = [
-  "call math.Ceil(c.aroundDuration(c.notFoundExpiry).Seconds())",
-  "call c.aroundDuration(c.notFoundExpiry)",
-  "call c.rds.SetnxExCtx(ctx, key, notFoundPlaceholder, seconds)",
-  "return err"] := by rfl
-
-theorem tie_setWithExpireFacts : setWithExpireFacts = [
-  "return err",
-  "call c.aroundDuration(c.expiry)",
-  "return c.rds.SetexCtx(ctx, key, string(data), int(math.Ceil(expire.Seconds())))",
-  "call c.rds.SetexCtx(ctx, key, string(data), int(math.Ceil(expire.Seconds())))",
-  "call math.Ceil(expire.Seconds())"] := by rfl
+/-- how the seconds handed to Redis are computed — EITHER form is accepted until fix
+`fixes/C06-ttl-at-least-one-second.patch` is applied:
+  * pinned code: `int(math.Ceil(d.Seconds()))` inline in `SetWithExpireCtx` and `setCacheWithNotFound` (0 seconds
+    for a jittered duration below 1 ns: witness `Props.one_nanosecond_expiry_writes_a_persistent_key`);
+  * fixed code: the same rounding inside the helper `ttlSeconds`, which never returns less than 1
+    (`Model.ttlSecondsFixed`; identical to the pinned rounding for every expiry ≥ 2 ns: `Props.ttl_fix_changes_nothing_above_1ns`).
+In both forms: the not-found marker uses `aroundDuration(c.notFoundExpiry)` and `SetnxExCtx` (SET NX EX), a row
+uses `expire` (re-drawn from `c.expiry` when non-positive) and `SetexCtx`. -/
+theorem tie_ttlSecondsForms :
+    (setCacheWithNotFoundFacts = [
+        "call math.Ceil(c.aroundDuration(c.notFoundExpiry).Seconds())",
+        "call c.aroundDuration(c.notFoundExpiry)",
+        "call c.rds.SetnxExCtx(ctx, key, notFoundPlaceholder, seconds)",
+        "return err"]
+      ∧ setWithExpireFacts = [
+        "return err",
+        "call c.aroundDuration(c.expiry)",
+        "return c.rds.SetexCtx(ctx, key, string(data), int(math.Ceil(expire.Seconds())))",
+        "call c.rds.SetexCtx(ctx, key, string(data), int(math.Ceil(expire.Seconds())))",
+        "call math.Ceil(expire.Seconds())"]
+      ∧ ttlSecondsFacts = [] ∧ ttlSecondsShape = [])
+    ∨ (setCacheWithNotFoundFacts = [
+        "call ttlSeconds(c.aroundDuration(c.notFoundExpiry))",
+        "call c.aroundDuration(c.notFoundExpiry)",
+        "call c.rds.SetnxExCtx(ctx, key, notFoundPlaceholder, seconds)",
+        "return err"]
+      ∧ setWithExpireFacts = [
+        "return err",
+        "call c.aroundDuration(c.expiry)",
+        "return c.rds.SetexCtx(ctx, key, string(data), ttlSeconds(expire))",
+        "call c.rds.SetexCtx(ctx, key, string(data), ttlSeconds(expire))",
+        "call ttlSeconds(expire)"]
+      ∧ ttlSecondsFacts = [
+        "call math.Ceil(d.Seconds())",
+        "return seconds",
+        "return 1"]
+      ∧ ttlSecondsShape = [
+        "call d.Seconds",
+        "call math.Ceil",
+        "if seconds > 1 {",
+        "return",
+        "}",
+        "return"]) := by decide
 
 theorem tie_setFacts : setFacts = [
   "return c.SetWithExpireCtx(ctx, key, val, c.aroundDuration(c.expiry))",
